@@ -176,6 +176,10 @@ class World(BaseWorld):
         """C14 bookkeeping invariants."""
         if not s.is_model:
             return
+        if not getattr(self, "observing", True) and not exact:
+            # reading variables / degree / mapping is itself an event (it could resynchronise a lazily maintained cache):
+            # in sparse-observation runs the simulator only looks after the ops recorded with obs=true
+            return
         o = s.obj
         p = self.stored_poly(s)
         tv = p.variables()
@@ -249,6 +253,17 @@ class World(BaseWorld):
 
     # ================================================================ op generation
     def gen_op(self, rng):
+        op = self.gen_op_inner(rng)
+        if op is not None and self.cfg.get("observe") == "sparse":
+            op["obs"] = rng.random() < 0.3
+        return op
+
+    def finish(self):
+        self.observing = True
+        self.check_all_book("finish")
+        return ["finish"]
+
+    def gen_op_inner(self, rng):
         c = self.cfg
         if self.nops >= c["n_ops"]:
             return None
@@ -487,6 +502,9 @@ class World(BaseWorld):
             raise HarnessError("unknown op " + kind)
         if kind not in ("new", "num", "var") and not self.pool:
             return [kind, "skipped-empty-pool"]
+        self.observing = op.get("obs", True)
+        if not self.observing:
+            self.probe("unobserved_ops")
         with warnings.catch_warnings(record=True) as wl:
             warnings.simplefilter("always")
             self.wlist = wl
@@ -1180,7 +1198,7 @@ def gen_cfg(rng, prop, tier):
         "labels": labels, "alphabet": [enc_label(l) for l in alpha],
         "coefs": rng.choice([[-1, 1], [-2, -1, 1, 2], [-3, -2, -1, 1, 2, 3], [-1, 1, 2, 4, 0.5], [1024, -1024, 1, -1, 3]]),
         "p_zero": rng.choice([0.0, 0.1, 0.3]),
-        "messy": rng.random() < 0.5,
+        "messy": rng.random() < 0.5, "observe": rng.choice(["every", "every", "sparse"]),
         "p_messy_key": rng.choice([0.0, 0.2, 0.5]),
         "p_alias": rng.choice([0.0, 0.1, 0.3]),
         "maxdeg": rng.choice([2, 3, 3, 4]),
